@@ -6,8 +6,8 @@
 set -e
 cd "$(dirname "$0")"
 DOM="$1"
-if [ -z "$DOM" ]; then ROOT=AllModels; GEN=gen; OUT=spmodel; DRV="../drv_*.ml";
-else ROOT=Roots$DOM; GEN=gen_$DOM; OUT=spmodel_$DOM; DRV="../drv_$(echo $DOM | tr A-Z a-z).ml"; fi
+if [ -z "$DOM" ]; then ROOT=AllModels; GEN=gen; OUT=spmodel; DRV="";
+else ROOT=Roots$DOM; GEN=gen_$DOM; OUT=spmodel_$DOM; DRV="drv_$(echo $DOM | tr A-Z a-z).ml"; fi
 rm -rf $GEN && mkdir $GEN && cd $GEN
 cat > ExtractAll.v <<EOV
 From Coq Require Import ExtrOcamlBasic ExtrOcamlString.
@@ -19,10 +19,24 @@ EOV
 timeout 600 coqc -Q ../../coq/theories SP ExtractAll.v
 rm -f ExtractAll.* .ExtractAll.aux
 EXTR=$(ls *.ml)
-cp ../wire.ml ../main.ml $DRV .
+cp ../wire.ml ../main.ml .
 WF=""
 if [ -f Flat.ml ]; then cp ../wire_flat.ml .; WF=wire_flat.ml; fi
 ORDER=$(ocamlfind ocamldep -sort $(ls *.mli) $EXTR)
-timeout 900 ocamlfind ocamlopt -w -a -O2 $ORDER wire.ml $WF drv_*.ml main.ml -o ../$OUT 2>/dev/null || \
-timeout 900 ocamlfind ocamlopt -w -a $ORDER wire.ml $WF drv_*.ml main.ml -o ../$OUT
-echo "built extract/$OUT"
+# compile the extracted modules and the wire helpers once
+timeout 900 ocamlfind ocamlopt -w -a -O2 -c $ORDER wire.ml $WF 2>/dev/null || timeout 900 ocamlfind ocamlopt -w -a -c $ORDER wire.ml $WF
+# every driver whose model modules were extracted for this root is linked in
+# (a Roots file may include the roots of other domains); the domain's own
+# driver must compile
+DRVS=""
+for d in ../drv_*.ml; do
+  b=$(basename $d)
+  cp $d .
+  if ocamlfind ocamlopt -w -a -c $b >/dev/null 2>&1; then DRVS="$DRVS $b"; else
+    if [ "$b" = "$DRV" ]; then ocamlfind ocamlopt -w -a -c $b; exit 1; fi
+    rm -f $b
+  fi
+done
+CMX=$(for f in $ORDER wire.ml $WF $DRVS; do case $f in *.ml) echo ${f%.ml}.cmx;; esac; done)
+timeout 900 ocamlfind ocamlopt -w -a $CMX main.ml -o ../$OUT
+echo "built extract/$OUT with drivers:$DRVS"
